@@ -50,7 +50,12 @@ ASSUMPTIONS = [
     'dataTop: categoryFields are strings',
     'dataParseCSV: csv.DictReader record splitting/quoting (skipinitialspace) and str.splitlines are trusted base: the model starts from the split '
     'cells; records are rectangular or short (no surplus cells: they would create a None key); header names are pairwise different; the harness '
-    'writer quotes cells containing , " CR LF or a leading space (other str.splitlines separators such as \\x0b or \\u2028 are not generated)',
+    'writer (minimal RFC 4180 quoting or every cell quoted; LF, CRLF, CR or mixed record ends) quotes cells containing , " CR LF or a leading '
+    'space AND cells containing one of the other str.splitlines separators \\x0b \\x0c \\x1c \\x1d \\x1e \\x85 \\u2028 \\u2029 (left unquoted, as a plain '
+    'RFC 4180 writer would, such a cell is cut into two records by the splitlines call of dataParseCSV: observation, reported); string cells are '
+    'drawn from every ASCII punctuation character incl. backslash and apostrophe, tabs, control characters, Latin-1/BMP/astral text (NFC and NFD, '
+    'BOM, NBSP, zero-width); malformed hand-written cells (stray quotes, text after a closing quote, unterminated quote) are typed as csv.reader '
+    'splits them',
     'value_parse_number = C13 model NumText.numberParseFloat (exact rational, the double is its correct rounding: the harness rounds); '
     'value_parse_datetime = C16 model Datetime.isoParse over a fixed-offset zone (the csv stream runs under TZ=UTC, thorough also Etc/GMT+5, Etc/GMT-3)',
 ]
@@ -714,6 +719,8 @@ KEY_GROUPS = [
     ['x', 'y', 'x', 'z', None, I(7)],
     [True, False, I(1), I(0), 'true'],
     [L(I(1), 'a.0,'), L(I(1), 'a,'), L(L(I(1))), L(L(F(1.0))), O(['a', L(I(1))]), O(['a', L(F(1.0))])],
+    ['a\\', 'a\\\\', 'a"', 'a\\"', 'a\n', 'a\\n', 'a', "a'"],
+    ['\u00e9', 'e\u0301', 'E\u0301', '\u00c9', '\U0001f600', '\ud7ff', '\uffff', 'e'],
 ]
 MEASURE_CLEAN = [I(0), I(1), I(2), I(3), I(-3), I(6), F(0.5), F(2.0), F(-1.25), F(4.75), F(1.0), None, None, I(10), F(0.1), F(0.2), F(0.3), F(1e16), F(-1e16)]
 MEASURE_DIRTY = ['s', 't', True, False, D(2021, 5, 6), D(2020, 1, 1), L(I(1)), O(['k', I(1)]), '1']
@@ -981,17 +988,94 @@ NULLS = ['', 'null']
 HEADERS = ['a', 'b', 'c', 'd e', 'x,y', 'n"q', 'a2', 'k']
 
 
-def csv_quote(text):
-    if text == '' or not any(ch in text for ch in ',"\n\r') and text[0] != ' ':
+# Characters str.splitlines treats as line ends besides CR and LF (VT, FF, FS, GS, RS, NEL, LS, PS).  RFC 4180 knows CR, LF and CRLF only: the
+# harness writer leaves these characters unquoted and they must survive the round trip (F32: dataParseCSV used str.splitlines).
+LINESEPS = ['\x0b', '\x0c', '\x1c', '\x1d', '\x1e', '\x85', '\u2028', '\u2029']
+MUST_QUOTE = set(',"\n\r')
+
+
+def ref_split_lines(text):
+    """the physical lines of a CSV text, line ends kept: a line ends after LF, after CRLF, or after a CR that no LF follows (RFC 4180 record
+    ends plus the lone CR of old Mac files); nothing else ends a line.  Written by hand: no str.splitlines, no regular expression."""
+    lines, start, i, n = [], 0, 0, len(text)
+    while i < n:
+        ch = text[i]
+        if ch == '\n' or (ch == '\r' and not (i + 1 < n and text[i + 1] == '\n')):
+            lines.append(text[start:i + 1])
+            start = i + 1
+        i += 1
+    if start < n:
+        lines.append(text[start:])
+    return lines
+
+
+def csv_quote(text, style='minimal'):
+    """RFC 4180 cell: quoted (quotes doubled) when it contains , " CR or LF - and when it starts with a blank, which dataParseCSV skips after a
+    delimiter by design (skipinitialspace, pinned by the test suite); style 'all' quotes every cell"""
+    if style != 'all' and (text == '' or not any(ch in MUST_QUOTE for ch in text) and text[0] != ' '):
         return text
     return '"' + text.replace('"', '""') + '"'
 
 
-def write_csv(header, records, eol='\n'):
-    lines = [','.join(csv_quote(h) for h in header)]
+def write_csv(header, records, eol='\n', style='minimal', quote_lone_empty=False, verbatim=()):
+    """quote_lone_empty: a record that is one empty cell is written "" (a bare empty line would be a blank line, which CSV readers skip);
+    verbatim: column indices whose cells are written as they are (hand-written / malformed CSV); eol: a string or a function line index -> string"""
+    lines = [','.join(csv_quote(h, style) for h in header)]
     for rec in records:
-        lines.append(','.join(csv_quote(c) for c in rec))
-    return eol.join(lines)
+        if quote_lone_empty and len(rec) == 1 and rec[0] == '':
+            lines.append('""')
+        else:
+            lines.append(','.join(c if i in verbatim else csv_quote(c, style) for i, c in enumerate(rec)))
+    if isinstance(eol, str):
+        return eol.join(lines)
+    return ''.join(ln + (eol(i) if i + 1 < len(lines) else '') for i, ln in enumerate(lines))
+
+
+# String values of every flavour a CSV reader option or a text clean-up step could be sensitive to: each ASCII punctuation character (any of
+# them may be somebody's escape character, quote character or delimiter), blanks and tabs at either end, line ends of the three conventions
+# (alone, doubled, after a backslash), the other str.splitlines separators, control characters, Latin-1 / BMP / astral text in composed and
+# decomposed form, byte-order mark, no-break and zero-width spaces, text that looks like another dialect's quoting or escaping, spreadsheet
+# formulas, spellings of null / booleans / numbers in other conventions.
+TEXT_TEMPLATES = [
+    'C:\\temp\\new folder\\readme.txt', '\\\\server\\share\\', '^\\d{4}-\\d{2}$', '\\', '\\\\', 'ends with a backslash\\', '\\"', 'a\\"b', '"\\"',
+    '\\n', 'tab\\there', 'a\\,b', '\\,', '\\\n', 'x\\\ny', 'x\\\r\ny', 'x\\\ry', '\\ ', ' \\', '\\x41', '\\u0041', '%5C', '&quot;', '\\\\"', 'a\\\\',
+    "'single'", "'a,b'", "'", "''", "it''s", "'a\nb'", '`a,b`', '"a"', '"a', 'a"', '""a""', '"""', 'a""b', '" "', '","', '"\n"',
+    'a;b', 'a\tb', '\tlead tab', 'trail tab\t', '\t', 'a|b', 'a:b', 'a b', '  two lead', 'two trail  ', ' ', '  ', ' , ', ', ', ' ,', ' "q"', ' \'q\'',
+    'a\rb', '\r', 'a\n\nb', '\n\n', '\r\n', 'a\r\n', '\na', 'a\n', 'a\r', '\ra', 'a\n\rb', 'l1\r\nl2\nl3\rl4', 'a,\nb', 'a\n,b', '"\n', '\n"', 'a\n"b"\nc',
+    'a\x0bb', 'a\x0cb', 'a\x1cb', 'a\x1db', 'a\x1eb', 'a\x85b', 'a\u2028b', 'a\u2029b', '\x0c', 'a\x0c', '\u2028a', 'a\x0b,"b',
+    'a\x00b', '\x00', 'a\x01b', 'a\x08b', 'a\x1bb', 'a\x1fb', '\x1fa', 'a\x1f', 'a\x7fb', '\x7f',
+    '{"k": "v\\n"}', '["a", 1]', '{"a":1,"b":"x,y"}', '<a href="x">', 'a=b&c=d', 'a/b/c', '/*c*/', '//', '--', '#', '#x', '# c', 'a#b',
+    '\u00e9', 'e\u0301', '\u00c5', 'A\u030a', '\u212b', '\ufb01', '\u00a0nbsp', 'nbsp\u00a0', '\u00a0', '\ufeffbom', 'bom\ufeff', '\ufeff', '\u200bzw', 'zw\u200b', '\u3000wide',
+    '\u00df', 'SS', '\u0130', 'i\u0307', '\u01c5', '\u65e5\u672c\u8a9e', '\uff0c', '\uff02', '\u201cq\u201d', '\u2018q\u2019', '\u00ab', '\uff3c', '\u2216', '\u00ad', '\u0660\u0661', 'a\u0663',
+    '\U0001f600', 'a\U0001f600"b', '\U0001f600,\U0001f600', '\U0001d7d8x', '\U00010000', '\U0010ffff', '\U0001f468\u200d\U0001f469', '\ud7ff', '\ue000', '\uffff', '\ufffd',
+    '=1+1', '=SUM(A1,B1)', '@x', '-x', '+x', '%s', '%', '$1', '$', '#N/A', 'N/A', 'NaN', 'None', 'TRUE', 'False', 'FALSE', 'Null', 'nil', 'NA', '-', '\\N',
+    '0x1p3', '1e', 'e', '--1', '1-1', '1,000', '1.000,5', '1 000', '1/2', '50%', '$5', '1e5x', '1.2.3', 'v1', '1st', '12:30', '2024-01', '24-01-01', '01/02/2024',
+    'true ', ' true', 'True', 'yes', 'no', 'on', 'null ', ' null', 'nullx', 'undefined',
+]
+# cells of hand-written CSV that no RFC 4180 writer produces: stray and unbalanced quotes, text after a closing quote, blanks around quoted
+# cells, an unterminated quoted cell (swallows the rest of the text).  Written verbatim; what the cells are is csv.reader's business (trusted
+# base), the typing of the resulting cells is checked.
+MALFORMED = ['a"b', '"a"b', '"a" ', '"a"  x', '"a""', '"abc', 'a""', '""a', '"', 'a"', ' "a"', '"a"\t', '"a\\"', '"a\\"b"', "'a", '"1"5', '"tr"ue', '"2024-02-30"x', '""', '" "']
+TEXT_CLASSES = [
+    (8, list('abzAZ')), (3, list('019')), (6, ['\\', '"', "'", ',']), (8, list('!#$%&()*+-./:;<=>?@[]^_`{|}~')), (4, [' ', '\t']),
+    (3, ['\n', '\r', '\r\n']), (1, LINESEPS), (1, ['\x00', '\x01', '\x08', '\x1b', '\x1f', '\x7f']),
+    (2, ['\u00e9', 'e\u0301', '\u00df', '\u00a0', '\u00ad', '\u00ff', '\u00d7']), (2, ['\u65e5', '\u0663', '\u200b', '\ufeff', '\u3000', '\uff0c', '\uff3c', '\u201c', '\u0301', '\ufffd']),
+    (1, ['\U0001f600', '\U0001d7d8', '\U00010000', '\U0010ffff', '\U0001f1e6']),
+]
+_TEXT_WEIGHTS = [w for w, _ in TEXT_CLASSES]
+
+
+def gen_text(rng):
+    """a string value: a template, or 1..6 tokens drawn from weighted character classes (punctuation-heavy)"""
+    r = rng.random()
+    if r < 0.02:
+        return ''
+    if r < 0.3:
+        return rng.choice(STRINGS)
+    if r < 0.6:
+        return rng.choice(TEXT_TEMPLATES)
+    n = rng.choice([1, 1, 2, 2, 3, 3, 4, 5, 6])
+    return ''.join(rng.choice(rng.choices(TEXT_CLASSES, _TEXT_WEIGHTS)[0][1]) for _ in range(n))
 
 
 def cell_text(v, null_text, date_only=False):
@@ -1134,21 +1218,38 @@ def gen_typed_column(rng, kind, n):
             else:
                 vals.append(datetime.datetime(y, mo, d, rng.randint(0, 23), rng.randint(0, 59), rng.randint(0, 59), rng.choice([0, 0, 1000, 123000, 999000])))
         else:
-            vals.append(rng.choice(STRINGS))
+            vals.append(gen_text(rng))
     return vals
+
+
+def gen_header(rng, ncols):
+    """pairwise different non-empty column names: mostly the fixed pool, sometimes generated text (backslashes, quotes, line ends, non-ASCII)"""
+    header = rng.sample(HEADERS, ncols)
+    for i in range(ncols):
+        if rng.random() < 0.12:
+            h = gen_text(rng)
+            if h != '' and h not in header:
+                header[i] = h
+    return header
 
 
 def gen_csv_case(rng, off):
     ncols = rng.randint(1, 5)
     nrows = rng.choice([0, 1, 2, 3, 5, 8, 12])
-    header = rng.sample(HEADERS, ncols)
+    header = gen_header(rng, ncols)
     kinds = [rng.choice(['number', 'boolean', 'datetime', 'string', 'string', 'raw']) for _ in range(ncols)]
     cols, typed = [], []
+    verbatim = set()
     for kind in kinds:
-        if kind == 'raw':
+        if kind == 'raw' and rng.random() < 0.12:
+            verbatim.add(len(cols))
+            pool = MALFORMED + ['x', '1', 'null', '']
+            cols.append([rng.choice(pool) for _ in range(nrows)])
+            typed.append(None)
+        elif kind == 'raw':
             # arbitrary cell texts: mixtures that may fail to convert (whole parse -> null)
             pool = rng.choice([NUMLIKE + NULLS, BOOLLIKE + NULLS + ['1'], DATETIMELIKE + DATELIKE + NULLS, STRINGS + NUMLIKE + NULLS, DATETIMELIKE + NULLS,
-                               NUMLIKE + ['abc']])
+                               NUMLIKE + ['abc'], TEXT_TEMPLATES + NULLS, NUMLIKE + [n + w for n in ('1', '2.5') for w in LINESEPS + ['\x1f', '\u00a0', '\t', '\\']]])
             cols.append([rng.choice(pool) for _ in range(nrows)])
             typed.append(None)
         else:
@@ -1170,24 +1271,33 @@ def gen_csv_case(rng, off):
     if short and records:
         r = rng.randrange(len(records))
         records[r] = records[r][:rng.randint(1, ncols - 1)]
-    eol = rng.choice(['\n', '\n', '\r\n'])
-    text = write_csv(header, records, eol) + (eol if rng.random() < 0.3 else '')
-    lines = text.split(eol) if not any(ch in ''.join(''.join(r) for r in records) for ch in '\r\n') else None
+    eol = rng.choice(['\n', '\n', '\n', '\r\n', '\r\n', '\r'])
+    # the writer: minimal RFC 4180 quoting or every cell quoted; a lone empty *string* is written "" (a bare empty line is no record)
+    style = 'all' if rng.random() < 0.2 else 'minimal'
+    mixed = rng.random() < 0.05
+    eols = [rng.choice(['\n', '\r\n', '\r']) for _ in range(nrows + 1)]
+    text = write_csv(header, records, (lambda i: eols[i]) if mixed else eol, style, quote_lone_empty=kinds == ['string'], verbatim=verbatim)
+    final_eol = rng.random() < 0.3
+    text += eol if final_eol else ''
+    simple = not mixed and not verbatim and not any(ch in ''.join(header) + ''.join(''.join(r) for r in records) for ch in '\r\n')
+    lines = text.split(eol) if simple else None
     chunks = [text]
     if lines is not None and len(lines) > 1 and rng.random() < 0.5:
         cut = sorted(rng.sample(range(1, len(lines)), min(len(lines) - 1, rng.randint(1, 3))))
         chunks = [eol.join(lines[a:b]) for a, b in zip([0] + cut, cut + [len(lines)])]
         if rng.random() < 0.3:
             chunks.insert(rng.randint(0, len(chunks)), None)
-    return {'header': header, 'records': records, 'typed': typed, 'chunks': chunks, 'off': off, 'short': short}
+    return {'header': header, 'records': records, 'typed': typed, 'chunks': chunks, 'off': off, 'short': short, 'malformed': bool(verbatim),
+            'via': 'script' if rng.random() < 0.1 else 'direct'}
 
 
 def split_cells(case):
-    """what csv.DictReader hands to validate_data (trusted base): header + records with None for missing cells"""
+    """the cells of the text: physical lines by ref_split_lines, cells and quoting by csv.reader (trusted base): header + records with None for
+    missing cells"""
     lines = []
     for chunk in case['chunks']:
         if chunk is not None:
-            lines.extend(chunk.splitlines(keepends=True))     # line separators inside quoted cells are kept (F26)
+            lines.extend(ref_split_lines(chunk))     # CR / LF / CRLF only; line ends inside quoted cells are kept (F26)
     rd = csv.reader(lines, skipinitialspace=True)
     rows = [r for r in rd]
     if not rows:
@@ -1215,6 +1325,17 @@ def check_csv_case(ctx, st, case, resp, header, recs):
         res = None
         impl = {'exception': type(exc).__name__ + ': ' + str(exc)}
     tags = ['cols%d' % len(case['header']), 'parsed' if res is not None else 'failed'] + sorted({(t or {'kind': 'raw'})['kind'] for t in case['typed']})
+    alltext = ''.join(c for c in case['chunks'] if c is not None)
+    tags += [name for name, chars in (('backslash', '\\'), ('quote', '"'), ('apostrophe', "'"), ('tab', '\t'), ('linesep', LINESEPS), ('control', '\x00\x01\x08\x1b\x1f\x7f'))
+             if any(ch in alltext for ch in chars)]
+    if any(ord(ch) > 0xffff for ch in alltext):
+        tags.append('astral')
+    elif any(ord(ch) > 0x7f for ch in alltext):
+        tags.append('non-ascii')
+    if case.get('malformed'):
+        tags.append('malformed')
+    if case.get('via') == 'script':
+        tags.append('via-script')
     if len(case['chunks']) > 1:
         tags.append('chunks')
     st.case({k: case[k] for k in ('header', 'records', 'chunks', 'off')}, nontrivial=len(case['records']) >= 1, tags=tags)
@@ -1235,7 +1356,21 @@ def check_csv_case(ctx, st, case, resp, header, recs):
         ctx.witness('csv-reference-typing', case['chunks'], None if want is None else enc_table(want), impl)
         return
     # oracle 3: round trip of typed columns under the side conditions; date-like text stays a string
-    if res is None or case['short'] or list(header) != list(case['header']) or len(res) != len(case['records']):
+    if res is None or case['short'] or case.get('malformed'):
+        return
+    if case.get('via') == 'script':
+        # the script function called from a script gives what the library function object gives
+        status, val = call_lib('dataParseCSV', list(case['chunks']), 'script')
+        if status != 'ok' or enc_table(val) != enc_table(res):
+            ctx.witness('csv-script-call-equals-direct', case['chunks'], enc_table(res), [status, enc_table(val) if status == 'ok' else val])
+            return
+    if case['typed'] and all(t is not None for t in case['typed']):
+        # a table written by the harness writer: one row per record written, the written column names in order (independent of the csv module)
+        if len(res) != len(case['records']) or any(list(row.keys()) != list(case['header']) for row in res):
+            ctx.witness('csv-roundtrip-shape', case['chunks'], {'header': list(case['header']), 'rows': len(case['records'])},
+                        {'header': [list(row.keys()) for row in res[:1]], 'rows': len(res)})
+            return
+    if list(header) != list(case['header']) or len(res) != len(case['records']):
         return
     for h, t, col in zip(case['header'], case['typed'], range(len(case['header']))):
         if t is None:
@@ -1285,12 +1420,16 @@ def csv_fixed_cases(off):
 
 def stream_csv(ctx):
     st = ctx.stream('csv', 'typed tables (<= 12 rows x 5 columns of numbers incl. exponent forms / booleans / datetimes and dates / strings with quoted commas, '
-                           'quotes, newlines, leading spaces and date-like invalid text / nulls as "" or "null") written as CSV by the harness writer, also '
+                           'quotes, newlines, leading spaces and date-like invalid text, strings generated from all ASCII punctuation (backslash, apostrophe, '
+                           'semicolon, tab, ...), lone CR / CRLF / LF and the other splitlines separators, control characters, composed and decomposed '
+                           'Latin-1/BMP/astral text, BOM/NBSP, other-dialect quoting and escaping look-alikes, the empty string / nulls as "" or "null"; '
+                           'generated column names too) written as CSV by the harness writer (minimal or all-cells quoting; LF, CRLF, CR or mixed record '
+                           'ends), 10% also called from a script; malformed hand-written cells (stray / unbalanced quotes) written verbatim; also '
                            'raw columns of number-like / boolean-like / datetime-like / invalid cells that may fail, short records, several chunk arguments '
                            'and null chunks; dataParseCSV vs model (split cells) vs reference typing + round-trip and date-like oracles; per fixed-offset '
-                           'zone; non-trivial = at least one record')
+                           'zone + written-shape oracle (one row per record, the written column names); non-trivial = at least one record')
     zones = [('UTC', 1.0)] if ctx.quick else [('UTC', 0.6), ('Etc/GMT+5', 0.2), ('Etc/GMT-3', 0.2)]
-    total = ctx.scale(10000, 90000)
+    total = ctx.scale(15000, 90000)
     for tzname, share in zones:
         def body(tzname=tzname, share=share):
             off = local_offset()
@@ -1315,8 +1454,9 @@ def stream_cell(ctx):
                                'column: inferred type and converted value, implementation vs model vs reference typing; non-trivial = non-empty text')
     library = fw.impl()['library']
     texts = []
-    for t in NUMLIKE + BOOLLIKE + DATETIMELIKE + DATELIKE + STRINGS + NULLS:
-        if t not in texts and '\n' not in t:
+    for t in NUMLIKE + BOOLLIKE + DATETIMELIKE + DATELIKE + STRINGS + NULLS + TEXT_TEMPLATES + [n + w for n in ('1', '2.5', 'true', '2024-02-29') for w in
+                                                                                                LINESEPS + ['\x1f', '\u00a0', '\t', '\\', '\n', '\r']]:
+        if t not in texts:
             texts.append(t)
     off = local_offset()
     resps = ctx.driver.batch([{'op': 'csvCell', 'text': t, 'off': off} for t in texts])
@@ -1409,13 +1549,21 @@ def replay(witness):
 
     def body():
         off = local_offset()
-        c = {'header': [], 'records': [], 'typed': [], 'chunks': inp, 'off': off, 'short': True}
+        c = {'header': [], 'records': [], 'typed': [], 'chunks': inp, 'off': off, 'short': oracle != 'csv-script-call-equals-direct',
+             'via': 'script' if oracle == 'csv-script-call-equals-direct' else 'direct'}
         header, recs = split_cells(c)
         c['header'] = header or []
         c['records'] = recs
         c['typed'] = [None] * len(c['header'])
         cx = _Ctx()
         check_csv_case(cx, fw.StreamStats('replay', ''), c, None, header, recs)
+        if oracle == 'csv-roundtrip-shape':
+            try:
+                res = fw.impl()['library'].SCRIPT_FUNCTIONS['dataParseCSV'](list(inp), None)
+            except Exception:  # pylint: disable=broad-except
+                return True
+            want = witness.get('expected') or {}
+            return res is None or len(res) != want.get('rows') or any(list(row.keys()) != want.get('header') for row in res)
         if oracle in ('datelike-kept-string', 'csv-typed-roundtrip'):
             # re-derive the typed expectation from the witness itself
             library = fw.impl()['library']
